@@ -60,8 +60,9 @@ CLAIMS = {
             "no-boundary exits), the cores select exactly the pieces outside the closed / inside the open other "
             "operand -- classified by a point of the piece itself -- with consistent indexing after splitting all curve "
             "pairs, pursue_path chains curved pieces by segment index across two crossing points, every while loop "
-            "and recursion has a termination witness, every boundary curve takes part, and operands stay reusable "
-            "in nested expressions.",
+            "and recursion has a termination witness (idiom catalogue, else list-length bounds), every boundary curve "
+            "takes part, result curves are grouped into the right components, no operator reads a stale cached box, "
+            "and operands stay reusable in nested expressions.",
             "NOT decided (the geometric core): that crossings are found, triple points, numerical robustness. "
             "Assumes ShapeFromJordans of the selected pieces denotes the region they bound.",
             "DESIGN.md section 2, C01"),
@@ -99,7 +100,8 @@ CLAIMS = {
             "singleton discipline of Empty/Whole, that a curve can only be assembled from a closed chain glued at "
             "all cyclic junctions (broken chains and non-curves are rejected), that result curves are grouped by "
             "mutual containment seeded by the largest |area| with >= 2 subshapes per ConnectedShape, that every pair "
-            "of boundary curves is cut before pieces are selected, and the no-boundary singleton exits.",
+            "of boundary curves is cut before pieces are selected, the no-boundary singleton exits, that a curve owns its "
+            "segment objects, and that no containment short-cut reads a stale cached box.",
             "NOT decided: absence of zero-length pieces / self-crossings, geometric disjointness of components, the "
             "laws S|~S is Whole etc. (they depend on the numeric path). Grouping is decided on nested/disjoint worlds.",
             "DESIGN.md section 2, C06"),
@@ -108,8 +110,9 @@ CLAIMS = {
             "Decides that no data-dependent raise/assert/division escapes to == on well-formed operands, that shape "
             "equality is multiset equality of the constituents with the kind guard and a bool result, that no exact "
             "float comparison of measures sits on the == path, that coordinate equality is type-independent, that "
-            "cyclic indices use the length of the indexed sequence, and that uniting redundant pieces uses the "
-            "junction tangents.",
+            "cyclic indices use the length of the indexed sequence, that uniting redundant pieces uses the "
+            "junction tangents, that a failed type test inside an __eq__ can only mean an operand outside the family "
+            "(path condition of the raise), and that == reads no stale cached box or length.",
             "NOT decided: reflexivity/symmetry/transitivity as such, the point-sampling plus clean() comparison "
             "inside JordanCurve.__eq__, tolerances. Implicit exceptions other than ZeroDivisionError are not modelled.",
             "DESIGN.md section 2, C07"),
@@ -117,7 +120,9 @@ CLAIMS = {
             "returned values, over the frozen rational-path entry table plus its callee closure",
             "Decides that on the rational / straight-segment paths no float and no limit_denominator-rounded value "
             "reaches a stored coordinate, a constructor argument or a returned parameter/integral, and that the "
-            "Fraction API receives exact ints with the documented cap >= 10**9 applied only in Point2D.__init__.",
+            "Fraction API receives exact ints with the documented cap >= 10**9 applied only in Point2D.__init__, and "
+            "that no derived point value is copied through the capping constructor in the middle of a computation "
+            "(Point2D's non-in-place operators copy their operand; may-point analysis over the call graph).",
             "Trusted base: numpy object-array dot/inner/prod and pynurbs (open_newton_cotes, Curve.split, knots) "
             "preserve Fractions. Values, not kinds, are not decided (a wrong exact formula is C04/C14's business).",
             "DESIGN.md section 2, C13"),
@@ -127,7 +132,7 @@ CLAIMS = {
             "filter table of JordanCurve.intersection (40 cells) and A & B, the [0,1]^2 range of every returned "
             "pair (exact line solver over 25 cells + Newton clamp), index and parameter roles (also for segments of "
             "different degree in both orders), sortedness, and that "
-            "the line-line solver uses no tolerance.",
+            "the line-line solver uses no tolerance, and that no crossing is discarded on a stale cached box.",
             "NOT decided: completeness of the Newton search for curved pieces, parity of crossings. Only a small named "
             "fraction of the statement.",
             "DESIGN.md section 2, C14"),
@@ -189,8 +194,8 @@ CLAIMS = {
             "evaluation cache can go stale, the box clause, the decision structure of `point in segment`, the "
             "wrap of the subtended angle, the basis identities for degrees 0..6, and (numeric abstract run with mutable "
             "sample points) that the winding number of a curved segment about an off-origin point is the sum of the "
-            "angles its chords subtend, and that split at several nodes yields the restrictions of the curve to the "
-            "node intervals.",
+            "angles its chords subtend, that split at several nodes yields the restrictions of the curve to the "
+            "node intervals, and that nothing behind `point in segment` quantises a parameter coarser than 1e-9.",
             "NOT decided: the Bernstein / Horner algebra, derivative matrices (pynurbs), split re-parametrisation, "
             "projection accuracy -- arithmetic identities outside this family. Only a small named fraction.",
             "DESIGN.md section 2, C18"),
